@@ -28,7 +28,9 @@ for t in DTYPS:
       call='dt_dtdiff(DT_DURS, d, d2)', ret='struct dt_dtdur_s', replace=['dt_tdiff_s', 'dt_ddiff'], solvers=['cadical'], timeout=1800, tier='thorough', sweep=SW)
     G('dtc.dt_dtcmp.' + t[3:], 'dt-core', 'dt_dtcmp', ['C08', 'C11'], ins=DT_IN + DT2_IN, fix={'in_typ': t, 'in_typ2': t}, setup=DT_SET + DT2_SET,
       call='dt_dtcmp(d, d2)', ret='int', solvers=['cadical'], timeout=1800, tier='thorough', sweep=SW)
-G('dtc.dt_dtadd.tonly', 'dt-core', 'dt_dtadd', ['C11', 'C15'], ins=[(U, 'in_h'), (U, 'in_m'), (U, 'in_s'), (U, 'in_du'), (U, 'in_dt'), ('long long', 'in_dv')],
-  setup='struct dt_dt_s d = {DT_UNK}; d.sandwich = 1; d.t.typ = DT_HMS; d.t.hms.h = in_h; d.t.hms.m = in_m; d.t.hms.s = in_s; d.d.u = in_du; '
-        'struct dt_dtdur_s dur = {(dt_dtdurtyp_t)DT_DURUNK}; dur.durtyp = (dt_dtdurtyp_t)in_dt; dur.dv = in_dv;',
-  call='dt_dtadd(d, dur)', ret='struct dt_dt_s', replace=['dt_tadd_s', 'dt_dadd/UNREACH_dt_dadd'], solvers=['cadical'], timeout=900, sweep=SW)
+for nm, dt in (('H', 'DT_DURH'), ('M', 'DT_DURM'), ('S', 'DT_DURS')):
+    G('dtc.dt_dtadd.tonly.' + nm, 'dt-core', 'dt_dtadd', ['C11', 'C15'], ins=[(U, 'in_h'), (U, 'in_m'), (U, 'in_s'), (U, 'in_du'), (U, 'in_dt'), ('long long', 'in_dv')],
+      fix={'in_dt': dt},
+      setup='struct dt_dt_s d = {DT_UNK}; d.sandwich = 1; d.t.typ = DT_HMS; d.t.hms.h = in_h; d.t.hms.m = in_m; d.t.hms.s = in_s; d.d.u = in_du; '
+            'struct dt_dtdur_s dur = {(dt_dtdurtyp_t)DT_DURUNK}; dur.durtyp = (dt_dtdurtyp_t)in_dt; dur.dv = in_dv;',
+      call='dt_dtadd(d, dur)', ret='struct dt_dt_s', replace=['dt_tadd_s', 'dt_dadd/UNREACH_dt_dadd'], solvers=['cadical'], timeout=900, sweep=SW)
